@@ -4,7 +4,7 @@
     the references contribute). *)
 From Coq Require Import List NArith ZArith Arith Lia Bool ZifyNat ZifyN.
 From Tongo Require Import Lib.Bits Lib.Res Model.BocParse Model.CellHash Spec.ReprHash
-  Proofs.CellHashP Model.MsgHash Spec.MsgCanon.
+  Proofs.CellHashP Model.MsgHash Spec.MsgCanon Proofs.MsgHashP Proofs.MsgHashN.
 Import ListNotations.
 
 (* lia understands / and mod by constants in this file only *)
@@ -204,6 +204,29 @@ Proof.
   subst bh2.
   destruct (plain_hash_inj _ _ _ _ _ _ _ _ L1 L2 B1 B2) as (Hbb & Hn & kk1 & kk2 & KK1 & KK2 & KKM).
   split; [exact Hbb|]. split; [exact Hn|]. exists kk1, kk2. auto.
+Qed.
+
+(** message level: a different destination encoding, different body bits or a
+    different number of body references give a different Hash(true) *)
+Theorem normalized_distinguishes m1 m2 s1 d1 f1 s2 d2 f2 h1 h2 :
+  m_info m1 = IExtIn s1 d1 f1 -> m_info m2 = IExtIn s2 d2 f2 ->
+  addr_wf d1 -> addr_wf d2 ->
+  (length (fst (m_body m1)) <= 1023)%nat -> (length (fst (m_body m2)) <= 1023)%nat ->
+  (length (snd (m_body m1)) <= 4)%nat -> (length (snd (m_body m2)) <= 4)%nat ->
+  Forall masks_ok (snd (m_body m1)) -> Forall masks_ok (snd (m_body m2)) ->
+  hash_cell H (canonical_cell d1 (m_body m1)) = Ok h1 ->
+  hash_cell H (canonical_cell d2 (m_body m2)) = Ok h2 ->
+  (addr_bits (canon_dest d1) <> addr_bits (canon_dest d2) \/
+   fst (m_body m1) <> fst (m_body m2) \/
+   length (snd (m_body m1)) <> length (snd (m_body m2))) ->
+  msg_hash H true m1 <> msg_hash H true m2.
+Proof.
+  intros E1 E2 W1 W2 B1 B2 R1 R2 M1 M2 H1 H2 Hdiff Heq.
+  destruct (normalized_hash_spec H m1 s1 d1 f1 h1 E1 W1 B1 M1 H1) as (A1 & C1).
+  destruct (normalized_hash_spec H m2 s2 d2 f2 h2 E2 W2 B2 M2 H2) as (A2 & C2).
+  rewrite A1, A2 in Heq. injection Heq as <-.
+  destruct (normalized_injective d1 d2 (m_body m1) (m_body m2) h1 R1 R2 C1 C2) as (X1 & X2 & X3 & _).
+  destruct Hdiff as [D|[D|D]]; contradiction.
 Qed.
 
 End I.
